@@ -33,7 +33,7 @@ CONFIG = dict(
     min_nontrivial={"quick": 800, "thorough": 4000},
     nshards={"quick": 8, "thorough": 16},
     timeout={"quick": 600, "thorough": 3600},
-    required_counters=("retries_checked", "values_delivered_or_refused", "opcode_encodings_checked"),
+    required_counters=("retries_checked", "compositions_checked", "values_delivered_or_refused", "opcode_encodings_checked"),
 )
 
 
@@ -147,6 +147,60 @@ def _containers(v, out=None):
         for x in v.values():
             _containers(x, out)
     return out
+
+
+def check_composition(ctx, f, v, variant):
+    """Several injections into ONE object, with an edit in front of the earlier payload in between: every injected
+    call still receives exactly what was handed to its helper."""
+    import vp_sink
+    agg = ctx.agg
+    key = h(("compose|%d|" % variant + repr(ckey(v))).encode("utf-8", "surrogatepass"))
+    if not agg.case(key, True, {"helper": "composition-%d" % variant, "value": repr(v)[:80], "kind": "compose:" + kind(v)}):
+        return
+    w = {"helper": "composition-%d" % variant, "value_repr": repr(v)[:400], "kind": "compose:" + kind(v)}
+    want = []
+    try:
+        p = f.Pickled.load(BASE)
+        p.insert_python("t1", v, module="vp_sink", attr="hit", run_first=True)
+        want.append(("t1", v))
+        if variant == 0:
+            p.insert_python("mid", 5, module="vp_sink", attr="hit", run_first=False)
+            want.append(("mid", 5))
+        elif variant == 1:
+            p.insert_magic_int(4242, index=0)
+        elif variant == 2:
+            n = p.insert_python_obj(0, ["junk", {"k": 1}])
+            p.insert(n, f.Pop())
+        elif variant == 3:
+            p.insert_python("res", 1, module="vp_sink", attr="hit", run_first=True, use_output_as_unpickle_result=True)
+            want.append(("res", 1))
+        p.ast                                   # a read in between
+        p.insert_python("t2", v, "end", module="vp_sink", attr="hit", run_first=True)
+        want.append(("t2", v, "end"))
+        if variant % 2 == 0:
+            p.insert_python("t3", [v, v], module="vp_sink", attr="hit", run_first=True)
+            want.append(("t3", [v, v]))
+        data = p.dumps()
+    except RecursionError:
+        return
+    except Exception as e:
+        agg.hist("refusals", f"compose:{kind(v)}:{type(e).__name__}")
+        return
+    w["hex"] = data.hex()[:1600]
+    del vp_sink.LOG[:]
+    try:
+        ORIG_LOADS(data)
+    except Exception as e:
+        del vp_sink.LOG[:]
+        agg.violation("composition-built-pickle-does-not-load",
+                      f"three helper calls on one object built a pickle the stock unpickler rejects: {type(e).__name__}: {str(e)[:100]}", w)
+        return
+    got = [e[1] for e in vp_sink.LOG if e[0] == "hit"]
+    del vp_sink.LOG[:]
+    agg.count("compositions_checked")
+    if sorted(ckey(list(x)) for x in got) != sorted(ckey(list(x)) for x in want):
+        agg.violation("composition-silently-altered",
+                      f"injected calls received {got!r}, the helpers were handed {want!r}"[:500], dict(w, received=repr(got)[:400]))
 
 
 def check_retry(ctx, f, helper, v):
@@ -483,6 +537,8 @@ def run_shard(ctx):
                 check_value(ctx, f, helper, v)
                 if helper in ("insert_python_first", "insert_python_last", "insert_python_obj"):
                     check_retry(ctx, f, helper, v)
+                if helper == "insert_python_first":
+                    check_composition(ctx, f, v, i % 4)
     for name in sorted(f.OPCODES_BY_NAME):
         for arg in opcode_args(name):
             i += 1
